@@ -28,19 +28,20 @@ VARIABLES l,         \* next line of the trace
           lastok,    \* did the abstract machine accept that call
           fh, fe,    \* projections measured on fresh objects by this execution
           archid,    \* architecture of this execution
-          expected,  \* ghost: <<arch, generate sequence>> -> digest logged first
+          basecfg,   \* was the holder initialised with a base address (init(env, base)) or JIT style (init(env))
+          expected,  \* ghost: <<arch, base?, generate sequence>> -> digest logged first
           taint      \* emitters whose run_passes() ran while they inherited a handler (see KEh)
 
-tvars == <<hinit, hlog, heh, att, em, gen, kinds, hist, l, last, lastok, fh, fe, archid, expected, taint>>
+tvars == <<hinit, hlog, heh, att, em, gen, kinds, hist, l, last, lastok, fh, fe, archid, basecfg, expected, taint>>
 
 T == TraceLog
 Ev == T[l]
 IsEv(e) == l <= Len(T) /\ Ev.e = e /\ l' = l + 1 /\ last' = Ev /\ UNCHANGED hist
-Same == UNCHANGED <<fh, fe, archid, expected>>
+Same == UNCHANGED <<fh, fe, archid, basecfg, expected>>
 KeepTaint == UNCHANGED taint
 
 TInit == /\ MInit(<<>>) /\ hist = <<>> /\ l = 1 /\ InitProgress
-         /\ last = [e |-> "None"] /\ lastok = TRUE /\ fh = <<>> /\ fe = <<>> /\ archid = 0 /\ expected = <<>> /\ taint = {}
+         /\ last = [e |-> "None"] /\ lastok = TRUE /\ fh = <<>> /\ fe = <<>> /\ archid = 0 /\ basecfg = TRUE /\ expected = <<>> /\ taint = {}
 
 (* a new execution: new objects *)
 TReset == /\ IsEv("Reset")
@@ -48,11 +49,11 @@ TReset == /\ IsEv("Reset")
           /\ att' = [h \in H |-> <<>>] /\ gen' = [h \in H |-> <<>>]
           /\ kinds' = Ev.kinds
           /\ em' = [e \in 1 .. Len(Ev.kinds) |-> FreshEm]
-          /\ fh' = Ev.fh /\ fe' = Ev.fe /\ archid' = Ev.cfg.archid
+          /\ fh' = Ev.fh /\ fe' = Ev.fe /\ archid' = Ev.cfg.archid /\ basecfg' = Ev.cfg.base
           /\ lastok' = TRUE /\ taint' = {}
           /\ UNCHANGED expected
 
-Key(h) == <<archid, gen'[h]>>
+Key(h) == <<archid, basecfg, gen'[h]>>
 TGen == /\ IsEv("Gen")
         /\ Ev.em \in E /\ Ev.p \in 1 .. 6
         /\ GenLegal(Ev.em, Ev.p)
@@ -61,14 +62,14 @@ TGen == /\ IsEv("Gen")
         /\ taint' = IF kinds[Ev.em] = "compiler" /\ ~em[Ev.em].owneh /\ EffEh(Ev.em) # 0 THEN taint \cup {Ev.em} ELSE taint
         /\ lastok' = TRUE
         /\ expected' = IF Key(Ev.h) \in DOMAIN expected THEN expected ELSE expected @@ (Key(Ev.h) :> Ev.fresh)
-        /\ UNCHANGED <<fh, fe, archid>>
+        /\ UNCHANGED <<fh, fe, archid, basecfg>>
 
 TSeal == /\ IsEv("Seal")
          /\ SealLegal(Ev.h)
          /\ Seal(Ev.h) /\ KeepTaint
          /\ lastok' = TRUE
          /\ expected' = IF Key(Ev.h) \in DOMAIN expected THEN expected ELSE expected @@ (Key(Ev.h) :> Ev.fresh)
-         /\ UNCHANGED <<fh, fe, archid>>
+         /\ UNCHANGED <<fh, fe, archid, basecfg>>
 
 Call(name, ok, act) == IsEv(name) /\ lastok' = ok /\ act /\ Same
 Untaint(e) == taint' = taint \ {e}
@@ -118,7 +119,7 @@ DigEq(a, b) == IF KName \in Known THEN \A i \in 2 .. 6 : a[i] = b[i] ELSE \A i \
 OutputIsFunctionOfCalls == (last.e \in {"Gen", "Seal"}) =>
                  /\ DigEq(last.dig, last.fresh)                     \* recycled objects = fresh objects, same process
                  /\ last.r = last.fr
-                 /\ DigEq(last.dig, expected[<<archid, gen[last.h]>>])   \* = what any earlier execution produced for these calls
+                 /\ DigEq(last.dig, expected[<<archid, basecfg, gen[last.h]>>])   \* = what any earlier execution produced for these calls
                  /\ last.seq = gen[last.h]                          \* harness and machine agree on what "the calls" are
 
 HandlerIsCurrent == (last.e = "Fail" /\ ~RelaxEh(last.em)) => \A i \in 1 .. Len(last.called) : last.called[i] = EffEh(last.em)
